@@ -36,9 +36,14 @@ fn opt_same(whole: &[u8], got: Option<&str>, s: usize, e: usize) -> bool {
 
 /// Borrowed form: acceptance = shape oracle; re-scanning accessors = parts() =
 /// oracle split; reassembly; decoded_data of a non-base64 URL.
-fn data_url_borrowed<const N: usize>() {
+fn data_url_borrowed<const N: usize, const PREFIXED: bool>() {
     let t = Text::<N>::any();
     let b = t.bytes();
+    if PREFIXED {
+        // only texts that start with `data:` (everything else is decided, for
+        // shorter texts, by the unprefixed instance)
+        assume(b.len() >= 5 && b[0] == b'd' && b[1] == b'a' && b[2] == b't' && b[3] == b'a' && b[4] == b':');
+    }
     let want = if tables::t_uri_uri_valid_k(b, N) { shape(b) } else { None };
     match (DataUrl::new(b), want) {
         (Err(e), None) => {
@@ -66,6 +71,7 @@ fn data_url_borrowed<const N: usize>() {
         (Err(_), Some(_)) => panic!("C18: rejected a valid data URL"),
     }
     cover!(want.is_none() && b.len() >= 6 && b[4] == b':', "data: prefix but not a data URL");
+    cover!(PREFIXED || (want.is_none() && b.len() >= 3 && b[1] == b':'), "another scheme");
 }
 
 /// Owned form: same acceptance, offset-based accessors = oracle split.
@@ -98,12 +104,28 @@ fn data_url_owned<const N: usize>() {
     }
 }
 
-// @h prop=C18 tier=quick kind=check timeout=2400 mem=16 bound="any byte string <= 13 bytes (data:;base64, fits)" encodes="DataUrl::{new,media_type,is_base_64_encoded,encoded_data,parts,decoded_data};DataUrlDelimiters::parse (Uri::validate -> table twin)"
+// @h prop=C18 tier=quick kind=check timeout=2400 mem=16 bound="any byte string <= 9 bytes" encodes="DataUrl::{new,media_type,is_base_64_encoded,encoded_data,parts,decoded_data};DataUrlDelimiters::parse (Uri::validate -> table twin)"
+#[cfg_attr(kani, kani::proof)]
+#[cfg_attr(kani, kani::unwind(12))]
+#[cfg_attr(kani, kani::stub(iref_core::uri::Uri::validate, crate::tables::t_uri_uri_validate_iter))]
+pub fn c18_data_url_borrowed_n9() {
+    data_url_borrowed::<9, false>()
+}
+
+// @h prop=C18 tier=quick kind=check timeout=2400 mem=20 bound="any byte string <= 13 bytes that starts with data: (so that data:;base64, fits)" encodes="same as c18_data_url_borrowed_n9"
+#[cfg_attr(kani, kani::proof)]
+#[cfg_attr(kani, kani::unwind(16))]
+#[cfg_attr(kani, kani::stub(iref_core::uri::Uri::validate, crate::tables::t_uri_uri_validate_iter))]
+pub fn c18_data_url_prefixed_n13() {
+    data_url_borrowed::<13, true>()
+}
+
+// @h prop=C18 tier=thorough kind=check timeout=3600 mem=34 bound="any byte string <= 13 bytes" encodes="same as c18_data_url_borrowed_n9"
 #[cfg_attr(kani, kani::proof)]
 #[cfg_attr(kani, kani::unwind(16))]
 #[cfg_attr(kani, kani::stub(iref_core::uri::Uri::validate, crate::tables::t_uri_uri_validate_iter))]
 pub fn c18_data_url_borrowed_n13() {
-    data_url_borrowed::<13>()
+    data_url_borrowed::<13, false>()
 }
 
 // @h prop=C18 tier=quick kind=check timeout=2400 mem=16 bound="any byte string <= 9 bytes" encodes="DataUrlBuf::{new,media_type,is_base_64_encoded,encoded_data,parts};Deref to DataUrl (UriBuf::new; Uri::validate -> table twin)"
@@ -114,12 +136,12 @@ pub fn c18_data_url_owned_n9() {
     data_url_owned::<9>()
 }
 
-// @h prop=C18 tier=thorough kind=check timeout=5400 mem=30 bound="any byte string <= 18 bytes (data:a;base64,AA== fits)" encodes="same as c18_data_url_borrowed_n13"
+// @h prop=C18 tier=thorough kind=check timeout=5400 mem=30 bound="any byte string <= 18 bytes that starts with data: (data:a;base64,AA== fits)" encodes="same as c18_data_url_borrowed_n13"
 #[cfg_attr(kani, kani::proof)]
 #[cfg_attr(kani, kani::unwind(21))]
 #[cfg_attr(kani, kani::stub(iref_core::uri::Uri::validate, crate::tables::t_uri_uri_validate_iter))]
-pub fn c18_data_url_borrowed_n18() {
-    data_url_borrowed::<18>()
+pub fn c18_data_url_prefixed_n18() {
+    data_url_borrowed::<18, true>()
 }
 
 // @h prop=C18 tier=thorough kind=check timeout=5400 mem=30 bound="any byte string <= 14 bytes" encodes="same as c18_data_url_owned_n9"
